@@ -262,12 +262,12 @@ theorem HmmerRes.regenerate_inv {ctx maxE minS j y} (h : HmmerRes.regenerate ctx
 
 /-! ### TTA -/
 
-theorem TTA.fromJson_toJson_cases (x : TTA) (opt : Dec) :
+theorem TTA.fromJson_toJson_cases (x : TTA) (opt : Dec) (hl : TTA.locsOk x.codons = true) :
     TTA.fromJson opt x.toJson =
       if Dec.lt x.gc x.threshold && Dec.le opt x.gc then .discard
       else if Dec.le opt x.gc then .reuse ⟨x.recordId, x.gc, opt, x.codons⟩
       else .reuse ⟨x.recordId, x.gc, opt, []⟩ := by
   simp only [TTA.toJson, TTA.fromJson]
-  simp [lookup, reqStr, reqNum, reqArr, isIntLit, TTA.schemaVersion, TTA.codons_roundtrip]
+  simp [lookup, reqStr, reqNum, reqArr, isIntLit, TTA.schemaVersion, TTA.codons_roundtrip x.codons hl]
 
 end ASV.Results
